@@ -36,7 +36,7 @@ inductive Res (α : Type) where
   | ok : α → Res α
   | err : Err → Res α
   | panic : Res α
-deriving Repr
+deriving Repr, DecidableEq
 
 def Res.isOk {α : Type} : Res α → Bool
   | .ok _ => true
@@ -331,6 +331,8 @@ def accrue (cfg : Cfg) (s : St) (d : Denom) (now : Int) (phi : Dec) (apyPos : Bo
       let bI := (s.brwIdx d).getD P
       let sI := (s.supIdx d).getD P
       let s0 := { s with brwIdx := upd s.brwIdx d (some bI), supIdx := upd s.supIdx d (some sI) }
+      -- CalculateBorrowRate → CalculateUtilizationRatio: `borrows.Quo(cash + borrows - reserves)` (only `< 0` is guarded)
+      if s.cash d + s.borrowed d - s.reserves d = 0 then .panic else
       let interest := (phi.mul (Dec.ofInt (s.borrowed d))).truncateInt - s.borrowed d
       if interest = 0 && apyPos then .ok s0
       else
@@ -359,61 +361,61 @@ structure AS where
   borrowed : Coins
   aucs : List Auction
 
+/-- common tail of both branches of the nested loop of `StartAuctions`, after the lot has been clamped: the
+    "sanity check", `StartCollateralAuction` (the bank send of the lot), the optimistic decrements of the totals
+    (`borrows.Sub(bid)` panics on a negative result), and the updates of the local valuation maps (`bv`, `dv`:
+    new values of the two map entries) and coins. -/
+def commitCore (cfg : Cfg) (b d : Denom) (st : AS) (lot bid bv dv : Int) (insufficient : Bool) : Res AS :=
+  if st.deposits d < lot then .err .insufficientCoins
+  else if st.cash d < lot then .err .insufficientFunds
+  else if (supp cfg.ds st.supplied).isEmpty then .err .suppliedCoinsNotFound
+  else if (supp cfg.ds st.borrowed).isEmpty then .err .borrowedCoinsNotFound
+  else if st.borrows b < bid then .panic
+  else .ok { st with
+    cash := upd st.cash d (st.cash d - lot)
+    supplied := decCoins st.supplied (upd zeroC d lot)
+    borrowed := decCoins st.borrowed (upd zeroC b bid)
+    aucs := st.aucs ++ [⟨d, lot, b, bid⟩]
+    bVal := upd st.bVal b bv
+    dVal := upd st.dVal d dv
+    borrows := upd st.borrows b (st.borrows b - bid)
+    deposits := upd st.deposits d (if insufficient then 0 else st.deposits d - lot) }
+
+/-- the `insufficientLotFunds` clamp against the spendable coins `mc` read before the loops, then `commitCore` -/
+def commitAuction (cfg : Cfg) (mc : Coins) (b d : Denom) (st : AS) (lot0 bid bv dv : Int) : Res AS :=
+  commitCore cfg b d st (if lot0 > mc d then mc d else lot0) bid bv dv (decide (lot0 > mc d))
+
+/-- branch "we can start an auction for the whole borrow amount": lot = maxLotSize·cf/price of the deposit denom -/
+def startFull (cfg : Cfg) (mc : Coins) (b d : Denom) (st : AS) (maxLot : Int) : Res (AS × Int) :=
+  if (cfg.mkt d).price.m = 0 then .panic else
+  let lotSize := ((Dec.mulInt ⟨maxLot⟩ (cfg.mkt d).cf).quo (cfg.mkt d).price).truncateInt
+  if lotSize = 0 then .ok (st, maxLot)
+  else if lotSize < 0 then .panic
+  else match commitAuction cfg mc b d st lotSize (st.borrows b) 0 (st.dVal d - maxLot) with
+    | .err e => .err e
+    | .panic => .panic
+    | .ok st' => .ok (st', 0)
+
+/-- branch "only a partial auction": lot = the whole remaining deposit of the denom, bid = its value·ltv in borrow units -/
+def startPartial (cfg : Cfg) (ltv : Dec) (mc : Coins) (b d : Denom) (st : AS) (maxLot : Int) : Res (AS × Int) :=
+  if (cfg.mkt b).price.m = 0 then .panic else
+  let maxBid := Dec.mul ⟨st.dVal d⟩ ltv
+  let bid := ((Dec.mulInt maxBid (cfg.mkt b).cf).quo (cfg.mkt b).price).truncateInt
+  if bid < 0 ∨ st.deposits d < 0 then .panic
+  else if bid = 0 ∨ st.deposits d = 0 then .ok (st, maxLot)
+  else if ltv.m = 0 then .panic
+  else match commitAuction cfg mc b d st (st.deposits d) bid (st.bVal b - maxBid.m) 0 with
+    | .err e => .err e
+    | .panic => .panic
+    | .ok st' => .ok (st', (Dec.quo ⟨st.bVal b - maxBid.m⟩ ltv).m)
+
 /-- one (bKey, dKey) iteration of the nested loop of `StartAuctions`; `mc` = the module's spendable coins
     read once before the loops.  Returns the new locals and the new `maxLotSize`.
     `break` on `maxLotSize == 0` is the same as skipping every remaining dKey. -/
 def startOne (cfg : Cfg) (ltv : Dec) (mc : Coins) (b d : Denom) (st : AS) (maxLot : Int) : Res (AS × Int) :=
   if maxLot = 0 then .ok (st, maxLot)
-  else if st.dVal d ≥ maxLot then
-    if (cfg.mkt d).price.m = 0 then .panic else
-    let lotSize := ((Dec.mulInt ⟨maxLot⟩ (cfg.mkt d).cf).quo (cfg.mkt d).price).truncateInt
-    if lotSize = 0 then .ok (st, maxLot)
-    else if lotSize < 0 then .panic
-    else
-      let insufficient := decide (lotSize > mc d)
-      let lot := if insufficient then mc d else lotSize
-      let bid := st.borrows b
-      if st.deposits d < lot then .err .insufficientCoins
-      else if st.cash d < lot then .err .insufficientFunds
-      else if (supp cfg.ds st.supplied).isEmpty then .err .suppliedCoinsNotFound
-      else if (supp cfg.ds st.borrowed).isEmpty then .err .borrowedCoinsNotFound
-      else .ok ({ st with
-        cash := upd st.cash d (st.cash d - lot)
-        supplied := decCoins st.supplied (upd zeroC d lot)
-        borrowed := decCoins st.borrowed (upd zeroC b bid)
-        aucs := st.aucs ++ [⟨d, lot, b, bid⟩]
-        bVal := upd st.bVal b 0
-        dVal := upd st.dVal d (st.dVal d - maxLot)
-        borrows := upd st.borrows b (st.borrows b - bid)
-        deposits := upd st.deposits d (if insufficient then 0 else st.deposits d - lot) }, 0)
-  else
-    if (cfg.mkt b).price.m = 0 then .panic else
-    let maxBid := Dec.mul ⟨st.dVal d⟩ ltv
-    let bid := ((Dec.mulInt maxBid (cfg.mkt b).cf).quo (cfg.mkt b).price).truncateInt
-    let lot0 := st.deposits d
-    if bid < 0 ∨ lot0 < 0 then .panic
-    else if bid = 0 ∨ lot0 = 0 then .ok (st, maxLot)
-    else
-      let insufficient := decide (lot0 > mc d)
-      let lot := if insufficient then mc d else lot0
-      if st.deposits d < lot then .err .insufficientCoins
-      else if st.cash d < lot then .err .insufficientFunds
-      else if (supp cfg.ds st.supplied).isEmpty then .err .suppliedCoinsNotFound
-      else if (supp cfg.ds st.borrowed).isEmpty then .err .borrowedCoinsNotFound
-      else if st.borrows b < bid then .panic
-      else if ltv.m = 0 then .panic
-      else
-        let bv := st.bVal b - maxBid.m
-        .ok ({ st with
-          cash := upd st.cash d (st.cash d - lot)
-          supplied := decCoins st.supplied (upd zeroC d lot)
-          borrowed := decCoins st.borrowed (upd zeroC b bid)
-          aucs := st.aucs ++ [⟨d, lot, b, bid⟩]
-          bVal := upd st.bVal b bv
-          dVal := upd st.dVal d 0
-          borrows := upd st.borrows b (st.borrows b - bid)
-          deposits := upd st.deposits d (if insufficient then 0 else st.deposits d - lot) },
-          (Dec.quo ⟨bv⟩ ltv).m)
+  else if st.dVal d ≥ maxLot then startFull cfg mc b d st maxLot
+  else startPartial cfg ltv mc b d st maxLot
 
 def startInner (cfg : Cfg) (ltv : Dec) (mc : Coins) (b : Denom) : List Denom → AS → Int → Res AS
   | [], st, _ => .ok st
